@@ -37,6 +37,29 @@ def Two.step (s : Two) (rate : Rat) (dt : Time) (u rep : Rat) : Two :=
   if s.failed then s.tick dt.getHours
   else if choice u (pFail rate dt) then ⟨true, rep⟩ else ⟨false, s.rem⟩
 
+/-! ### A network of two-state components with a shared "some line is failed" flag
+(ICTNetwork.failed_line with ICTLine.fail / not_fail; the power networks keep the same flag for their lines) -/
+
+structure NetTwo where
+  comps : List Two
+  flag : Bool          -- parent_network.failed_line
+deriving Repr, Inhabited
+
+/-- `not_fail` of component `i`: the flag is cleared when `i` is the only failed component of the network -/
+def NetTwo.notFail (n : NetTwo) (i : Nat) (rem' : Rat) : NetTwo :=
+  let c := n.comps.getD i default
+  let cnt := (n.comps.filter (·.failed)).length
+  { comps := n.comps.set i ⟨false, rem'⟩, flag := if cnt == 1 && c.failed then false else n.flag }
+
+/-- `update_fail_status` of component `i` inside its network -/
+def NetTwo.stepOne (n : NetTwo) (i : Nat) (rate : Rat) (dt : Time) (u rep : Rat) : NetTwo :=
+  let c := n.comps.getD i default
+  if c.failed then
+    let r := c.rem - dt.getHours
+    if r ≤ 0 then n.notFail i 0 else { n with comps := n.comps.set i ⟨true, r⟩ }
+  else if choice u (pFail rate dt) then { comps := n.comps.set i ⟨true, rep⟩, flag := true }
+  else n.notFail i c.rem
+
 /-! ### Sensor -/
 
 inductive DevState where
